@@ -1173,10 +1173,15 @@ TRUSTED = [
 ASSUMPTIONS = [
     "the Lean model works over the integers with an abstract non-zero scale N(exponent, label); real scales are real numbers "
     "and the only algebra used is cancellation of a non-zero factor",
-    "text scanning of the five formats is not modelled in Lean (structural level: which number goes where)",
+    "text scanning of the five formats is not modelled in Lean (structural level: which number goes where); occupations, energies "
+    "and spin labels are compared by the search only",
     "numpy fancy indexing / broadcasting as transcribed in Model/Wf.lean",
     "tolerances: orbital values within 100 x the relative precision of the digits each writer prints, times the first-order "
     "forward error weight sum |primitive term| (1 + alpha r^2 + l/2) |C| (documented at TOL in c01.py)",
+    "reader models (Model/WfRead.lean) are structural: a shell type absent from the format's convention table counts 0 functions "
+    "in the model while the real Molden/Molekel readers end in a wrapped KeyError LoadError (Cartesian h without [9G], nfn = 0); "
+    "a density array whose length is not triangular and the Molekel readers' normalisation repair (C05) are outside the model; "
+    "the reader-side generators stay inside the convention tables",
     "Molden/Molekel/FCHK files are evaluated with the function order of the format module's CONVENTIONS table (T1 = spec); "
     "WFN/WFX type codes with the AIMALL list copied into the harness",
 ]
